@@ -229,6 +229,16 @@ for n in XE.__all__:
         vd = verdict(a, v) if a is not None else 'ok'
         s1 = outcome(lambda: (c(v0, **{key: v}) if v0 is not None else c(**{key: v})))
         rec2 = {'key': key, 'val': repr(v), 'verdict': vd, 'declared': a is not None, 'ctor': s1}
+        # the attribute interface is the same on an element whose STRUCTURAL checking is switched off (constructor keyword and dot assignment)
+        rec2['ctor_unchecked'] = outcome(lambda: (c(v0, xsd_check=False, **{key: v}) if v0 is not None else c(xsd_check=False, **{key: v})))
+        def dot_unchecked():
+            eu = c(v0, xsd_check=False) if v0 is not None else c(xsd_check=False)
+            setattr(eu, key, v)
+        rec2['dot_unchecked'] = outcome(dot_unchecked)
+        def dot_checked():
+            ec = c(v0) if v0 is not None else c()
+            setattr(ec, key, v)
+        rec2['dot_checked'] = outcome(dot_checked)
         if isinstance(v, (str, int, float)) and not isinstance(v, bool) and a is not None and a.name:
             node = ET.Element(c.XSD_TREE.name, {a.name: str(v)})
             if v0 is not None:
